@@ -22,6 +22,9 @@ type PopOpts struct {
 	SpareCap   bool                     // allocate slices with spare capacity (Go-level; done by caller helpers)
 	SkipFields map[protoreflect.FullName]bool
 	KeyRange   int // map keys are drawn from 0..KeyRange (default 19)
+	// NoZeroTimestamps: never a present-but-all-zero timestamp (whether such a date is "set" is left open by the
+	// equality and diff statements)
+	NoZeroTimestamps bool
 }
 
 var smallText = []string{"a", "b", "c", "x1", "v2", "MIT", "Apache-2.0", "http://e.x/a", "pkg:npm/a@1", "pkg:deb/b@2", "cpe:2.3:a:b:c", "deadbeef", "00ff"}
@@ -111,15 +114,19 @@ func populate(t *rapid.T, label string, msg protoreflect.Message, o *PopOpts, de
 				m := msg.Mutable(fd).Message()
 				// one in eight: present but all-zero (the Unix epoch, what SOURCE_DATE_EPOCH=0 builds record) — a set
 				// date whose message has no non-default field
-				if rapid.IntRange(0, 7).Draw(t, l+".epoch") == 0 {
+				if !o.NoZeroTimestamps && rapid.IntRange(0, 7).Draw(t, l+".epoch") == 0 {
 					continue
 				}
 				sec := rapid.Int64Range(-62135596800, 253402300799).Draw(t, l+".sec")
 				if rapid.Bool().Draw(t, l+".recent") {
 					sec = rapid.Int64Range(0, 2000000000).Draw(t, l+".sec2")
 				}
+				ns := int32(rapid.IntRange(0, 999999999).Draw(t, l+".ns"))
+				if o.NoZeroTimestamps && sec == 0 && ns == 0 {
+					sec = 1
+				}
 				m.Set(m.Descriptor().Fields().ByName("seconds"), protoreflect.ValueOfInt64(sec))
-				m.Set(m.Descriptor().Fields().ByName("nanos"), protoreflect.ValueOfInt32(int32(rapid.IntRange(0, 999999999).Draw(t, l+".ns"))))
+				m.Set(m.Descriptor().Fields().ByName("nanos"), protoreflect.ValueOfInt32(ns))
 				continue
 			}
 			if depth > 0 {
@@ -297,6 +304,9 @@ func Leaves(msg protoreflect.Message, prefix string) []Leaf {
 					m := msg.Mutable(fd).Message()
 					sf := m.Descriptor().Fields().ByName("seconds")
 					delta := int64(rapid.IntRange(1, 100000).Draw(t, "tsd"))
+					if m.Get(sf).Int()+delta == 0 {
+						delta++ // (not onto second 0: with nanos 0 that is the all-zero date)
+					}
 					m.Set(sf, protoreflect.ValueOfInt64(m.Get(sf).Int()+delta))
 				}})
 				continue
